@@ -137,9 +137,17 @@ func (c *FCtx) checkFrame(e *Env, st *State, tag string, pos token.Pos) {
 	if fa.all {
 		return
 	}
-	if st.epoch != "" {
-		c.oblige(st, "frame", fmt.Sprintf("frame(heap)#%s", tag), pos, TFalse, "an un-contracted call may have written the whole heap; modifies does not allow it")
-		return
+	for _, h := range st.hav {
+		for _, p := range h.prefixes {
+			if p == "*" {
+				c.oblige(st, "frame", fmt.Sprintf("frame(heap)#%s", tag), pos, TFalse, "an unmodelled construct may have written the whole heap; modifies does not allow it")
+				return
+			}
+			if fa.ghostVars[p] {
+				continue
+			}
+			c.oblige(st, "frame", fmt.Sprintf("frame(%s via call)#%s", p, tag), pos, TFalse, "an un-contracted callee may write "+p+" at objects the modifies clause does not name")
+		}
 	}
 	alloc0 := Var("$alloc@pre", SInt)
 	var keys []string
